@@ -26,7 +26,14 @@ written from a defect that was demonstrated on the pinned tree and repaired:
  (R3) NOT EXISTS is not decorrelated to NOT IN: in the subquery rewriter the call of rewrite_exists_to_in is reachable
       only on the `negated == false` side (NOT IN and NOT EXISTS differ under NULLs).
 Does NOT decide join-order independence, the hash / nested-loop agreement on values, nor the semi-join rewrites of
-positive IN / EXISTS (they have no NULL asymmetry)."""
+positive IN / EXISTS (they have no NULL asymmetry). (R7) a subquery with LIMIT / OFFSET keeps its form: in optimizer::subquery_rewrite every shape-changing step - the
+      assignment of `distinct = true` on a (copy of a) subquery, the call of rewrite_in_to_exists, and a Some(..) answer of
+      rewrite_exists_to_in - is decided by tests that the subquery's limit and offset are both None.  DISTINCT before the
+      cut, a correlation predicate pushed under the cut, or one cut for all outer rows change which rows survive.
+ (R8) the two subquery-to-join conversions agree on what a join cannot express: in optimizer::subquery_to_join every
+      function that answers Some(join) for a subquery (IN and EXISTS forms) decides that the subquery's OFFSET is None and
+      tests its LIMIT on the way (a semi / anti join ignores a per-outer-row cut).
+"""
 import re
 from ..engine.facts import callee_name
 from ..engine.cfg import cfg
@@ -249,3 +256,88 @@ def run(ctx):
         if not (outer_ok and inner_ok):
             ctx.finding('R6/in-join-condition', 'try_convert_in_to_join builds the join condition from unqualified column references: with the same column name on both sides '
                         '(k IN (SELECT k FROM u)) the condition compares a column with itself and every row qualifies', g.loc)
+
+
+_run_main = run
+
+
+def run(ctx):
+    _run_main(ctx)
+    _rewrite_cut_rule(ctx)
+    _join_conversion_cut_rule(ctx)
+
+
+def _rewrite_cut_rule(ctx):
+    from ..engine.cfg import op_const
+    prog = ctx.prog
+    ctx.rule('C05.R7', 'optimizer::subquery_rewrite: blocks that assign true to a .distinct field, call rewrite_in_to_exists, or build the Some(..) answer of rewrite_exists_to_in are '
+             'decided by limit == None and offset == None of `subquery`')
+    sites = []
+    for f in prog.fns.values():
+        if f.unit != 'vibesql_executor' or shared.is_test(f) or '::optimizer::subquery_rewrite::' not in f.nice:
+            continue
+        s = Sym(f)
+        for bi, b in enumerate(f.blocks):
+            if b['t'].get('cleanup'):
+                continue
+            for st in b['s']:
+                if 'd' in st and st['d'][1] and st['d'][1][-1] == '.distinct' and st['v']['r'] == 'use' and op_const(st['v']['a']) in (True, 1):
+                    sites.append((f, bi, 'distinct = true', st['l'], s))
+                if 'd' in st and st['d'][0] == 0 and not st['d'][1] and st['v']['r'] == 'agg' and st['v'].get('variant') == 'Some' and f.nice.endswith('::rewrite_exists_to_in'):
+                    sites.append((f, bi, 'Some(..) of rewrite_exists_to_in', st['l'], s))
+            t = b['t']
+            if t['k'] == 'call' and (callee_name(t) or '').endswith('::rewrite_in_to_exists'):
+                sites.append((f, bi, 'rewrite_in_to_exists', t['l'], s))
+    ctx.floor('C05.R7 shape-changing rewrite steps', len(sites), 3)
+    for f, bi, what, line, s in sites:
+        at = shared.stmt_atoms(prog, f, bi, s)
+        # a bool local computed from both tests (`has_cut`) decides the step as well
+        conds = shared.deciding_conditions(f, bi, s)
+        via_flag = any(('limit' in c and 'offset' in c) and v == '0' for c, v in conds)
+        # `let has_cut = q.limit.is_some() || q.offset.is_some();` lowers to a flag that is const(true) behind the limit test and
+        # is_some(q.offset) otherwise: the flag being false at the site means both tests were false
+        g = cfg(f)
+        for c, v in conds:
+            m = re.match(r'^phi\(const\(1\) \| is_some\((.*)\.offset\)\)$', c)
+            if m and v == '0':
+                want = f'is_some({m.group(1)}.limit)'
+                if any(b2['t']['k'] == 'switch' and shared.switch_condition(f, b2i, s) == want and g.dominates(b2i, bi) for b2i, b2 in enumerate(f.blocks)):
+                    via_flag = True
+        ok = {'limit_none', 'offset_none'} <= at or via_flag
+        short = f.nice.rsplit('::', 1)[1]
+        key = f'R7/{short}/{what.split(" ")[0].split("(")[0]}'
+        ctx.instance(key + f'@{line}', {'rule': 'C05.R7', 'fn': f.nice, 'loc': f'{f.file}:{line}', 'step': what, 'decided_by_no_cut': ok, 'atoms': sorted(at)})
+        if not ok:
+            ctx.finding(key, f'{f.nice}: the rewrite step `{what}` is applied to a subquery without deciding that it has neither LIMIT nor OFFSET: '
+                        'x IN (SELECT y FROM b ORDER BY y LIMIT 2) became IN (SELECT DISTINCT y .. LIMIT 2) and matched a second value', f'{f.file}:{line}')
+
+
+def _join_conversion_cut_rule(ctx):
+    prog = ctx.prog
+    ctx.rule('C05.R8', 'optimizer::subquery_to_join::try_convert_*_to_join: every Some(..) answer is decided by offset == None of `subquery` and by a test that reads subquery.limit')
+    n = 0
+    for f in prog.fns.values():
+        if f.unit != 'vibesql_executor' or shared.is_test(f) or not re.search(r'optimizer::subquery_to_join::try_convert_\w+_to_join$', f.nice):
+            continue
+        s = Sym(f)
+        somes = []
+        for bi, b in enumerate(f.blocks):
+            for st in b['s']:
+                if 'd' in st and st['d'][0] == 0 and not st['d'][1] and st['v']['r'] == 'agg' and st['v'].get('variant') == 'Some':
+                    somes.append((bi, st['l']))
+        if not somes:
+            continue
+        n += 1
+        ok = True
+        for bi, line in somes:
+            at = shared.stmt_atoms(prog, f, bi, s)
+            conds = shared.deciding_conditions(f, bi, s)
+            limit_read = 'limit_none' in at or any(re.search(r'\bsubquery\.limit\b', c) for c, _v in conds)
+            if 'offset_none' not in at or not limit_read:
+                ok = False
+        short = f.nice.rsplit('::', 1)[1]
+        ctx.instance(f'R8/{short}', {'rule': 'C05.R8', 'fn': f.nice, 'loc': f.loc, 'some_answers': len(somes), 'decided_by_offset_none_and_limit_test': ok})
+        if not ok:
+            ctx.finding(f'R8/{short}', f'{f.nice} converts a subquery into a semi / anti join without deciding that it has no OFFSET (and without looking at its LIMIT): '
+                        'WHERE EXISTS (SELECT 1 FROM b WHERE b.y = a.x OFFSET 1) is true for outer rows with a single match', f.loc)
+    ctx.floor('C05.R8 subquery-to-join conversions', n, 2)
